@@ -1,5 +1,5 @@
 (* C06 - Unknown options, extensions and entity members are skipped, not fatal. *)
-From Ctap Require Import Base Schema Wire Utf8 Typed Procs Inst Tables CborItem WireP SkipP TypedP FramingP.
+From Ctap Require Import Base Schema Wire Utf8 Typed Procs Inst Tables CborItem WireP SkipP TypedP EntriesP FramingP.
 Local Open Scope string_scope.
 Local Open Scope Z_scope.
 
@@ -20,6 +20,21 @@ Theorem c06_unknown_member_step :
     txt_loop decf fs (S k) n acc (ser_text name ++ ienc c ++ rest)%list
     = txt_loop decf fs k (n - 1) acc rest.
 Proof. exact txt_loop_skip_unknown. Qed.
+
+(* THE PROPERTY, for any text-keyed host map in any environment: a map carrying any number of unknown
+   text-keyed members, at any positions, holding any well-formed items, decodes to EXACTLY the same value
+   as the map with those members removed (without_unknown), and leaves the same rest *)
+Theorem c06_unknown_members_irrelevant : forall e k name s d fs tes rest rest',
+  lookup e name = Some (DStruct false s d fs) ->
+  Forall (txt_entry_ok (dec e k) fs) tes ->
+  NoDup (map en_label (known_entries tes)) ->
+  (forall fd, In fd fs -> f_opt fd = false -> In (f_label fd) (map en_label (known_entries tes))) ->
+  blen tes < 4294967296 ->
+  exists v,
+    dec e (S k) (TNamed name) (put_head 5 (blen tes) ++ List.concat (map enc_txt_entry tes) ++ rest)%list = Ok (v, rest) /\
+    dec e (S k) (TNamed name)
+      (put_head 5 (blen (without_unknown tes)) ++ List.concat (map enc_txt_entry (without_unknown tes)) ++ rest')%list = Ok (v, rest').
+Proof. exact dec_text_struct_unknown_irrelevant. Qed.
 
 (* the host map types the specification lets platforms extend are text-keyed structs in every
    feature configuration (so c06_unknown_member_step applies to them) *)
@@ -44,5 +59,6 @@ Proof. exact generated_request_side. Qed.
 
 Eval vm_compute in "ASSUMPTIONS c06_skip_exact". Print Assumptions c06_skip_exact.
 Eval vm_compute in "ASSUMPTIONS c06_unknown_member_step". Print Assumptions c06_unknown_member_step.
+Eval vm_compute in "ASSUMPTIONS c06_unknown_members_irrelevant". Print Assumptions c06_unknown_members_irrelevant.
 Eval vm_compute in "ASSUMPTIONS c06_hosts_are_text_keyed". Print Assumptions c06_hosts_are_text_keyed.
 Eval vm_compute in "ASSUMPTIONS c06_generated_conforms". Print Assumptions c06_generated_conforms.
